@@ -30,6 +30,9 @@ ELEM_PATS = [("_", lambda x: True), ("3", lambda x: x == 3), ("> 5", lambda x: x
              ("5..", lambda x: x >= 5), ("1..3", lambda x: 1 <= x < 3)]
 
 
+VALUE_PATS = [("1 | 2", lambda x: x in (1, 2)), ("1", lambda x: x == 1), ("3", lambda x: x == 3), ("1 | 3 | 7", lambda x: x in (1, 3, 7)), ("2 | 7", lambda x: x in (2, 7))]
+
+
 def macro_cases(rng, _n):
     """Through the macro: set patterns over small integer collections, elements drawn from a fixed palette
     (wildcard, literal, comparisons, range), every order of the collection: the verdict must be the existence
@@ -38,8 +41,8 @@ def macro_cases(rng, _n):
     import tgen
     cases = []
     k = 0
-    meanings = "(meanings (v %s (int 3)) (v %s (int 5)) (v %s (int 1)) (v %s (int 7)) (r %s (int 1) (int 3) true) (r %s (int 5) none false) (r %s (int 1) (int 3) false))" % (
-        tgen.hexs("3"), tgen.hexs("5"), tgen.hexs("1"), tgen.hexs("7"), tgen.hexs("1..=3"), tgen.hexs("5.."), tgen.hexs("1..3"))
+    meanings = "(meanings (v %s (int 3)) (v %s (int 5)) (v %s (int 1)) (v %s (int 7)) (r %s (int 1) (int 3) true) (r %s (int 5) none false) (r %s (int 1) (int 3) false) (p %s (anyof (int 1) (int 2))) (p %s (anyof (int 1) (int 3) (int 7))) (p %s (anyof (int 2) (int 7))))" % (
+        tgen.hexs("3"), tgen.hexs("5"), tgen.hexs("1"), tgen.hexs("7"), tgen.hexs("1..=3"), tgen.hexs("5.."), tgen.hexs("1..3"), tgen.hexs("1|2"), tgen.hexs("1|3|7"), tgen.hexs("2|7"))
     multisets = [[3, 1], [1, 3], [7, 3, 1], [1, 2, 7], [7, 2, 1], [2, 7, 1], [6, 6], [3], [], [3, 3, 9], [9, 3, 3], [1, 3, 7, 9], [0, 7, 9], [3, 0, 1, 0, 0, 7], [7, 8, 9, 6, 1], [1, 8, 3, 9]]
     # deterministic: every pattern list of length 1 and 2 over the whole palette, every list of length 3 over four patterns of different
     # behaviour (a sample that changes with the generator's random stream once let a seeded change slip back out of reach)
@@ -49,6 +52,14 @@ def macro_cases(rng, _n):
             combos.append(list(c))
     for c in itertools.product((0, 1, 2, 4), repeat=3):
         combos.append(list(c))
+    # sets made of plain-value patterns only, some of which accept SEVERAL values (or-patterns are simple patterns) and overlap partially:
+    # first-fit without backtracking is wrong on them (seed C10-11 took that short cut for all-value sets)
+    base = len(ELEM_PATS)
+    for c in itertools.product(range(base, base + len(VALUE_PATS)), repeat=2):
+        combos.append(list(c))
+    for c in itertools.product((base, base + 1, base + 4), repeat=3):
+        combos.append(list(c))
+    pats = ELEM_PATS + VALUE_PATS
     for c in combos:
         for rest in (False, True):
             for val in multisets:
@@ -56,14 +67,14 @@ def macro_cases(rng, _n):
                     continue       # a deterministic third of the length failures
                 if rest and len(val) < len(c) and (len(val) + len(c)) % 3 != 0:
                     continue
-                pat = "#(%s%s)" % (", ".join(ELEM_PATS[i][0] for i in c), (", .." if c else "..") if rest else "")
+                pat = "#(%s%s)" % (", ".join(pats[i][0] for i in c), (", .." if c else "..") if rest else "")
                 case = t3.Case()
                 case.id = k
                 k += 1
                 case.forms = {"set-macro": 1}
                 case.perturbed = False
                 case.meanings = meanings
-                rows = [[ELEM_PATS[i][1](x) for x in val] for i in c]
+                rows = [[pats[i][1](x) for x in val] for i in c]
                 case.want_pass = spec_pass(rest, len(c), len(val), rows)
                 t3.finish_case(case, "", "Vec<i32>", ("vec![%s]" % ", ".join("%di32" % x for x in val)) if val else "Vec::<i32>::new()",
                                "(seq %s)" % " ".join("(int %d)" % x for x in val), pat)
@@ -178,3 +189,11 @@ def run(ck):
         "predicates are modelled as a pure Boolean matrix M k i (the macro's probe closures are deterministic functions of the element; tied at macro level by C01-C03's correspondence)",
     ]
     macro_part(ck)
+    # C10_macro_level lifts the theorems through the set template (probe predicates + one call of set_match): tie the template to
+    # the real generator, token for token (a generator that calls another matcher for some sets is at least a broken correspondence)
+    import t2
+    res = t2.run(ck)
+    mm = t2.record(ck, res, ("body", "status"), "the set template: probe predicates, the length / rest arguments and the call of set_match")
+    if mm and not [v for v in ck.violations if not v["no_input"]]:
+        ck.report("corr:T2-body", "the model of the code generator no longer matches the real expansion (%d inputs differ)" % len(mm),
+                  dict(broken="correspondence T2 (expansion tokens)", theorems=["C10_setMatch_iff (macro level)", "refine"], first=mm[:3]), no_input=True)
